@@ -21,19 +21,76 @@ import bvlib as B
 # ---------------------------------------------------------------- the language
 # tokens: A<r> alloc, U<r> use, R reset, I<i> iter begin, J<i> iter use, D drop arena,
 #         M move arena, S share between threads, T move to thread, X<r> send collection r
+def MD(e):
+    return "ManuallyDrop::new(%s)" % e
+
+
 KINDS = {
-    # kind: (binding expression, has implicit drop at scope end, may be sent with X)
+    # kind: (binding: an expression, or statements with {r} = bound name and {h} = helper name,
+    #        has implicit drop at scope end, may be sent with X)
     "ref": ("a.alloc(7u32)", False, False),
     "str": ("a.alloc_str(\"x\")", False, False),
     "slice": ("a.alloc_slice_copy(&[1u8, 2])", False, False),
     "fill": ("a.alloc_slice_fill_with(3, |i| i)", False, False),
-    "vec": ("ManuallyDrop::new(Vec::<u8>::with_capacity_in(4, &a))", False, True),
-    "string": ("ManuallyDrop::new(BString::from_str_in(\"x\", &a))", False, True),
-    "box": ("ManuallyDrop::new(BBox::new_in(5u64, &a))", False, False),
+    "vec": (MD("Vec::<u8>::with_capacity_in(4, &a)"), False, True),
+    "string": (MD("BString::from_str_in(\"x\", &a)"), False, True),
+    "box": (MD("BBox::new_in(5u64, &a)"), False, False),
     "vecd": ("bumpalo::vec![in &a; 1u8, 2]", True, False),
     "stringd": ("bumpalo::format!(in &a, \"{}\", 1)", True, False),
     "boxd": ("BBox::new_in([1u8; 3], &a)", True, False),
+    # ---- other ways to obtain an arena-backed value: constructors, helpers, conversions, views
+    "alloc_with": ("a.alloc_with(|| 1u8)", False, False),
+    "try_alloc": ("a.try_alloc(1u8).unwrap()", False, False),
+    "try_alloc_with": ("a.try_alloc_with(|| 1u8).unwrap()", False, False),
+    "alloc_try_with": ("a.alloc_try_with(|| Ok::<u8, ()>(1)).unwrap()", False, False),
+    "try_alloc_try_with": ("a.try_alloc_try_with(|| Ok::<u8, ()>(1)).unwrap()", False, False),
+    "slice_clone": ("a.alloc_slice_clone(&[std::string::String::new()])", False, False),
+    "fill_copy": ("a.alloc_slice_fill_copy(3, 1u8)", False, False),
+    "fill_clone": ("a.alloc_slice_fill_clone(3, &1u8)", False, False),
+    "fill_iter": ("a.alloc_slice_fill_iter([1u8, 2].iter().copied())", False, False),
+    "fill_default": ("a.alloc_slice_fill_default::<u8>(3)", False, False),
+    "try_slice_copy": ("a.try_alloc_slice_copy(&[1u8]).unwrap()", False, False),
+    "try_str": ("a.try_alloc_str(\"x\").unwrap()", False, False),
+    "vec_new": (MD("Vec::<u8>::new_in(&a)"), False, True),
+    "vec_from_iter": (MD("Vec::from_iter_in(0u8..3, &a)"), False, True),
+    "string_new": (MD("BString::new_in(&a)"), False, True),
+    "string_cap": (MD("BString::with_capacity_in(3, &a)"), False, True),
+    "string_from_iter": (MD("BString::from_iter_in(['a', 'b'].iter().copied(), &a)"), False, True),
+    "string_lossy": (MD("BString::from_utf8_lossy_in(b\"x\", &a)"), False, True),
+    "string_utf16": (MD("BString::from_utf16_in(&[120u16], &a).unwrap()"), False, True),
+    "string_from_utf8": (MD("BString::from_utf8(bumpalo::vec![in &a; 120u8]).unwrap()"), False, True),
+    "string_into_bytes": (MD("BString::from_str_in(\"x\", &a).into_bytes()"), False, True),
+    "string_into_bump_str": ("BString::from_str_in(\"x\", &a).into_bump_str()", False, False),
+    "vec_into_bump_slice": ("bumpalo::vec![in &a; 1u8].into_bump_slice()", False, False),
+    "vec_into_bump_slice_mut": ("bumpalo::vec![in &a; 1u8].into_bump_slice_mut()", False, False),
+    "vec_into_boxed_slice": (MD("bumpalo::vec![in &a; 1u8].into_boxed_slice()"), False, False),
+    "vec_into_iter": (MD("bumpalo::vec![in &a; 1u8].into_iter()"), False, False),
+    "box_from_vec": (MD("BBox::<[u8]>::from(bumpalo::vec![in &a; 1u8])"), False, False),
+    "box_slice_from_array": (MD("BBox::<[u8]>::from(BBox::new_in([1u8; 3], &a))"), False, False),
+    "box_array_from_slice": (MD("BBox::<[u8; 3]>::try_from(BBox::<[u8]>::from(BBox::new_in([1u8; 3], &a))).ok().unwrap()"), False, False),
+    "box_pin": (MD("BBox::pin_in(1u8, &a)"), False, False),
+    "box_into_pin": (MD("std::pin::Pin::<BBox<u8>>::from(BBox::new_in(1u8, &a))"), False, False),
+    "box_leak": ("BBox::leak(BBox::new_in(1u8, &a))", False, False),
+    "box_from_iter": (MD("BBox::from_iter_in(0u8..3, &a)"), False, False),
+    "collect_vec": (MD("(0u8..3).collect_in::<Vec<u8>>(&a)"), False, True),
+    "collect_box": (MD("(0u8..3).collect_in::<BBox<[u8]>>(&a)"), False, False),
+    "collect_string": (MD("\"ab\".chars().collect_in::<BString>(&a)"), False, True),
+    "vec_clone": (MD("bumpalo::vec![in &a; 1u8].clone()"), False, True),
+    "vec_split_off": (MD("bumpalo::vec![in &a; 1u8, 2].split_off(1)"), False, True),
+    "string_split_off": (MD("BString::from_str_in(\"xy\", &a).split_off(1)"), False, True),
+    # views into a collection: the collection itself lives in a helper binding
+    "vec_drain": ("let mut {h} = " + MD("bumpalo::vec![in &a; 1u8, 2]") + "; let {r} = " + MD("{h}.drain(..)") + ";", False, False),
+    "vec_drain_filter": ("let mut {h} = " + MD("bumpalo::vec![in &a; 1u8, 2]") + "; let {r} = " + MD("{h}.drain_filter(|_| true)") + ";", False, False),
+    "vec_splice": ("let mut {h} = " + MD("bumpalo::vec![in &a; 1u8, 2]") + "; let {r} = " + MD("{h}.splice(.., [3u8])") + ";", False, False),
+    "vec_as_slice": ("let mut {h} = " + MD("bumpalo::vec![in &a; 1u8, 2]") + "; let {r} = {h}.as_mut_slice();", False, False),
+    "vec_iter": ("let {h} = " + MD("bumpalo::vec![in &a; 1u8, 2]") + "; let {r} = {h}.iter();", False, False),
+    "string_drain": ("let mut {h} = " + MD("BString::from_str_in(\"xy\", &a)") + "; let {r} = " + MD("{h}.drain(..)") + ";", False, False),
+    "string_as_str": ("let {h} = " + MD("BString::from_str_in(\"xy\", &a)") + "; let {r} = {h}.as_str();", False, False),
+    "string_chars": ("let {h} = " + MD("BString::from_str_in(\"xy\", &a)") + "; let {r} = {h}.chars();", False, False),
+    "box_deref": ("let mut {h} = " + MD("BBox::new_in(1u8, &a)") + "; let {r} = &mut **{h};", False, False),
+    "vec_bump": ("let {h} = " + MD("Vec::<u8>::new_in(&a)") + "; let {r} = {h}.bump();", False, False),
 }
+BASE_KINDS = ("ref", "str", "slice", "fill", "vec", "string", "box", "vecd", "stringd", "boxd")
 PRELUDE = """#![allow(warnings)]
 extern crate bumpalo;
 use bumpalo::Bump;
@@ -41,6 +98,8 @@ use bumpalo::collections::Vec;
 use bumpalo::collections::String as BString;
 use bumpalo::boxed::Box as BBox;
 use std::mem::ManuallyDrop;
+use bumpalo::collections::CollectIn;
+use std::convert::TryFrom;
 fn touch<T: ?Sized>(_: &T) {}
 fn need_send<T: Send>() {}
 fn need_sync<T: Sync>() {}
@@ -76,6 +135,12 @@ def interesting(prog):
     return any(t[0] in "AISTDMR" for t in prog)
 
 
+def bind_stmt(expr, r, h):
+    if "{r}" in expr:
+        return expr.replace("{r}", r).replace("{h}", h)
+    return "let %s = %s;" % (r, expr)
+
+
 def render(kind, prog, fname):
     """-> (rust source of one function, the program the model must judge)"""
     expr, implicit_drop, _ = KINDS[kind]
@@ -83,16 +148,19 @@ def render(kind, prog, fname):
     model = []
     cur = {}        # source name -> unique binding number (implicit-drop kinds are renamed apart)
     n_bind = 0
+    n_help = 0
     for t in prog:
         k, arg = t[0], t[1:]
         if k == "A":
             if implicit_drop:
                 cur[arg] = n_bind
                 n_bind += 1
-                lines.append("    let r%d = %s;" % (cur[arg], expr))
+                lines.append("    " + bind_stmt(expr, "r%d" % cur[arg], "h%d" % n_help))
+                n_help += 1
                 model.append("A%d" % cur[arg])
             else:
-                lines.append("    let r%s = %s;" % (arg, expr))
+                lines.append("    " + bind_stmt(expr, "r%s" % arg, "h%d" % n_help))
+                n_help += 1
                 model.append(t)
         elif k == "U":
             name = cur[arg] if implicit_drop else arg
@@ -216,6 +284,8 @@ def enumerate_programs(maxlen, deep=False):
     for kind in KINDS:
         alpha = alphabet(kind)
         top = maxlen + 1 if (deep and kind in DEEP_KINDS) else maxlen
+        if kind not in BASE_KINDS:
+            top = min(top, 3)          # the other ways of obtaining a value: every program up to 3 statements
         for n in range(1, top + 1):
             for prog in itertools.product(alpha, repeat=n):
                 if well_scoped(prog) and interesting(prog):
